@@ -29,6 +29,21 @@ type scen struct {
 
 type result struct{ args, res, feats string }
 
+// commitModeOf: s (CommitInterval == 0), a (CommitInterval > 0) or - (no group); a function
+// of the plan entry only.
+func commitModeOf(sc scen) string {
+	if sc.op == "cac" || sc.mode == "g" {
+		switch sc.kind {
+		case "commit-slow", "ctx-commit":
+			return "s"
+		case "interval":
+			return "a"
+		}
+		return []string{"s", "a"}[(uint64(sc.seed)>>7)&1]
+	}
+	return "-"
+}
+
 // env is the state of one running e2e scenario.
 type env struct {
 	sc scen
@@ -345,6 +360,9 @@ func (e *env) finish(quiet, grace time.Duration, shutdown func()) (toks []string
 		}
 	}
 	toks = e.tl.tokens()
+	for _, n := range e.tl.notes {
+		e.ft.add(n)
+	}
 	shutdown()
 	e.mu.Lock()
 	defer e.mu.Unlock()
